@@ -58,8 +58,8 @@ static void families(std::vector<RCfg>& out, bool thorough) {
    }
    { Cfg c; c.args = {mk('a', "alpha", FLAG), mk('b', "beta", FLAG), mk('g', "gamma", INT)}; HConstraint h; h.type = 3; h.members = {0, 1, 2}; c.hcs = {h}; push("one_of", c, {{}, {}, {"5"}}); }
    // F7 differ / disjoint
-   { Cfg c; c.args = {mk('a', "alpha", INT), mk('b', "beta", INT), mk('g', "gamma", FLAG)}; HConstraint h; h.type = 4; h.members = {0, 1}; c.hcs = {h}; push("differ", c, {{"5", "6"}, {"5", "7"}, {}}); }
-   { Cfg c; c.args = {mk('a', "alpha", STR), mk('b', "beta", STR), mk('g', "gamma", FLAG)}; HConstraint h; h.type = 4; h.members = {0, 1}; c.hcs = {h}; push("differ", c, {{"x", "y"}, {"x", "z"}, {}}); }
+   { Cfg c; c.args = {mk('a', "alpha", INT), mk('b', "beta", INT), mk('g', "gamma", FLAG)}; HConstraint h; h.type = 4; h.members = {0, 1}; c.hcs = {h}; push("differ", c, {{"5", "6", "-777"}, {"5", "7", "-777"}, {}}); }      // -777 = initial content of every int destination: an UNUSED partner holds it
+   { Cfg c; c.args = {mk('a', "alpha", STR), mk('b', "beta", STR), mk('g', "gamma", FLAG)}; HConstraint h; h.type = 4; h.members = {0, 1}; c.hcs = {h}; push("differ", c, {{"x", "y", "<init>"}, {"x", "z", "<init>"}, {}}); }      // "<init>" = initial content of every string destination
    { Cfg c; Arg a = mk('a', "alpha", VECINT), b = mk('b', "beta", VECINT); c.args = {a, b, mk('g', "gamma", FLAG)}; HConstraint h; h.type = 5; h.members = {0, 1}; c.hcs = {h}; push("disjoint", c, {{"1,2", "3"}, {"2,4", "5,1", "6"}, {}}); }
    // F8 deprecated
    { Cfg c; Arg a = mk('a', "alpha", INT); a.deprecated = true; c.args = {a, flagB}; push("deprecated", c, {{"5"}, {}}); }
